@@ -122,4 +122,4 @@ Example C14_example :
   verify_seal keccak argon argon argon hm (h 0) = SErr SInvalidDifficulty /\
   map (block_version {| chain_id := testnet2_chain_id; hf := testnet2_hf |}) [7; 8; 18; 19] = [2; 3; 3; 4] /\
   map (block_version {| chain_id := mainnet_chain_id; hf := mainnet_hf |}) [22799; 22800] = [1; 2].
-Proof. vm_compute. repeat split; reflexivity. Qed.
+Proof. exact seal_example. Qed.
